@@ -61,7 +61,8 @@ VSop(ev) ==
                        /\ (IF St(pl) = "+" THEN MaxEnd(pl) <= MinStart(ol) ELSE MinStart(pl) >= MaxEnd(ol)) IN
      IF IsVal(o) THEN
         IF o[2] # pc \o oc THEN "append:chars"
-        ELSE IF ~ConsistentSeq(o[2], o[3], o[4], root) THEN "append:location-consistent"
+        ELSE IF ~ConsistentSeq(o[2], o[3], o[4], root)
+             THEN (IF (ph /\ SelfOverlap(pl)) \/ (oh /\ SelfOverlap(ol)) THEN "append:selfoverlap-order" ELSE "append:location-consistent")
         ELSE Ok(~compatible \/ o[4], "append:keeps-location")
      ELSE IF ~Rejected(o) THEN "append:internal-error"
      ELSE Ok(~compatible /\ (ph \/ oh), "append:returns")
